@@ -227,3 +227,29 @@ check('C20',
       'reference mc/models/atomic.py, mc/models/seqtypes.py and the xmlschema decoder; QName / IDREF / ENTITY typed content and xsi:type on xml.etree (no prefix map) are outside '
       'the generated space; what a schema-less context sees on a tree typed by an earlier context is not judged',
       'DESIGN.md section 3 C20 and section 10')
+
+# ---- additions made after the second wave of seeded changes (appended to the texts above) --------------------------------------
+ADDENDA = {
+    'C01': ' Added: chained predicates in the predicate alphabet; `R|axis` units where library Element / Comment / PI objects are passed as root AND as context '
+           'item; following:: from attribute / namespace nodes is judged against both readings (XDM and libxml2) instead of being skipped. The thorough tier is '
+           'bounded to about 1.1e8 (path, tree) pairs.',
+    'C02': ' Added: set operators with left operands that contain duplicates and are out of document order ((S1, S2, S1), a variable with the nodes reversed and twice, per-child parents).',
+    'C03': ' Added: heterogeneous and huge-integer sequences in the function matrix, every arity-0/1 function also as a path step (/f(), //b/f(.), @id/f()), an ElementTree-rooted '
+           'context, 19 non-XPath whitespace / odd characters at every gap and in place of every token of the corpus.',
+    'C04': ' Added: keyword-names units (NCNames that begin or end with each of ~100 keywords / function names, in 21 syntactic contexts, must be one name token) and fillers with two and three consecutive comments.',
+    'C05': ' Added: api units (module-level select / iter_select, Selector methods and token+context under every configuration, alone and after another module-level call) and '
+           'scoping programs where a function item is created before and called inside each binding construct.',
+    'C08': ' Added: focus-dependent numeric predicates ([.], [position()], [last() - position() + 1]) on numeric sequences up to length 4, the distinct-mixed unit (numerically equal values '
+           'of different types, booleans, strings) and programs that read the focus inside the body of for / some / every whose range expression has its own inner focus.',
+    'C10': ' Added: untyped values taken from attribute and element nodes (cast / castable / constructor) next to xs:untypedAtomic(), and binary values longer than 57 octets in the cast table.',
+    'C11': ' Added: component functions of xs:date and xs:time, fractions of seconds with leading zeros, timezone-from-* for the three types, and the operand of adjust-* bound to a variable is unchanged afterwards.',
+    'C12': ' Added: quantifier-bounds units ({n}, {n,}, {n,m} with 1-3 digit bounds, leading zeros, min > max, after five atoms, greedy and reluctant), complemented category / class '
+           'escapes in the flags corpus, functions-flags units (matches / replace / tokenize / analyze-string with a flags argument against the reference match spans).',
+    'C13': ' Added: plain list operands (code points and range tuples) for |= -= &= ^=, and a reference block table per installable version folded from a private execution of the data module, compared after every install history.',
+    'C14': ' Added: 64 XPath keywords as PI targets / element / attribute names, namespace names with quotes, &, *, %, and a namespaces argument (default namespace, extra prefixes) as a dimension.',
+    'C15': ' Added: nested unit - every array term up to 5 (quick) / 6 (thorough) nodes, i.e. arrays nested to any depth with sequence and empty members: array:flatten, data(), array:size, ?*, identity, deep-equal.',
+    'C16': ' Added: recursion family (closure size x where the parameter is read x how the inner call is made x depth), partial-hof family (function items given to partially applied named '
+           'higher-order functions, from rebinding scopes and after earlier calls), mixed decimal / double / integer keys in the sort family.',
+}
+for _pid, _txt in ADDENDA.items():
+    CHECKS[_pid]['text'] += _txt
